@@ -34,7 +34,7 @@ def judge_hist(path):
             if ev[0] == "TOK":
                 toks[ev[1]] = ev[2]
             elif ev[0] == "V":
-                _, hid, step, cfg, tok, cl, rr, er, mr, rf, ef, mf = ev
+                _, hid, step, cfg, tok, cl, rr, er, mr, rf, ef, mf = ev[:12]
                 name = toks.get(tok, str(tok))
                 chk("verify", "reused", rr, er, mr, "cfg%d:%s" % (cfg, name), ev)
                 chk("verify", "fresh", rf, ef, mf, "cfg%d:%s" % (cfg, name), ev)
